@@ -147,6 +147,7 @@ class El:
 
 
 _ENVS = {}
+_PLAIN = {}
 
 
 def mk_env(vals, mode):
@@ -289,6 +290,82 @@ def run_case(case, fail, stats):
                     pass
 
 
+def run_assign_case(case, fail, stats):
+    """statements `name = expression` (the other alternative of the grammar's start rule): evaluated deferred they DEFINE
+    the variable through the manager; a later statement reads it.  After every statement and after every later change
+    of a variable through the manager, each assigned variable holds what the same statements give when evaluated
+    immediately, in order, over plain data."""
+    stmts, vals, mode = case["stmts"], case["vals"], case.get("mode", "item")
+    env, madexpr, madeval, variables, elements = mk_env(vals, mode)
+    case["_tokens"], case["_tree"] = None, None
+    targets = [st.split("=")[0].strip() for st in stmts]
+    if mode not in _PLAIN:
+        d = {}
+        _PLAIN[mode] = (d, MU.MadxEval(d, math, elements, get=mode).eval)
+    plain, imm_eval = _PLAIN[mode]
+    plain.clear()
+    plain.update(vals)
+
+    def immediate():
+        out = {}
+        for st in stmts:
+            r = outcome(lambda: imm_eval(st))
+            if r[0] != "ok":
+                return None
+        for t in targets:
+            out[t] = outcome(lambda: plain[t])
+        return out
+    try:
+        want = immediate()
+        if want is None:
+            stats["assign_skipped"] = stats.get("assign_skipped", 0) + 1
+            return
+        try:
+            for st in stmts:
+                madexpr(st)
+        except Exception as e:
+            fail("C19", "deferred-assignment-raises", {"stmts": stmts, "mode": mode, "exc": type(e).__name__})
+            return
+        stats["assign_cases"] = stats.get("assign_cases", 0) + 1
+        got = {t: outcome(lambda: variables.get(t)) for t in targets}
+        if got != want:
+            fail("C19", "assigned-variable-differs-from-immediate", {"stmts": stmts, "mode": mode, "vals": vals, "holds": got, "immediate": want})
+            return
+        for name, v in case.get("then", []):
+            try:
+                env._vref[name] = v
+            except Exception:
+                stats["assign_update_raises"] = stats.get("assign_update_raises", 0) + 1
+                return
+            plain[name] = v
+            want = immediate()
+            if want is None:
+                return
+            got = {t: outcome(lambda: variables.get(t)) for t in targets}
+            stats["assign_updates"] = stats.get("assign_updates", 0) + 1
+            if got != want:
+                fail("C19", "assigned-variable-stale-after-update", {"stmts": stmts, "mode": mode, "vals": vals, "then": [name, v],
+                                                                    "holds": got, "immediate": want})
+                return
+    finally:
+        for t in targets:
+            try:
+                env._vref[t] = 0.0       # drop the definitions again (the environment is reused)
+            except Exception:
+                pass
+            for k in [k for k in list(variables) if k == t]:
+                del variables[k]
+
+
+def safe_expr(rng, depth):
+    """an expression without division / functions with restricted domains (statements that raise are skipped anyway)"""
+    for _ in range(20):
+        t = gen_sum(rng, depth)
+        if "/" not in t and "sqrt" not in t and "fmod" not in t and "^" not in t and "**" not in t:
+            return t
+    return "a + 1"
+
+
 def normalise(tree):
     """lark inlines `?rule` nodes with one child: tokens that stand for themselves become number/var"""
     if isinstance(tree, str):
@@ -321,7 +398,27 @@ def main():
                 for mode in ("item", "attr"):
                     cases.append({"text": s, "vals": {"a": 2.0, "b": 3.0, "c.d": 4.0, "k1": 0.5, "x_2": -1.5, "zero": 0.0, "a.b": 7.0, "b.c": 4.0},
                                   "mode": mode, "then": [["a", 5.0], ["zero", 1.0]]})
+            # statements: a chain of definitions made through the deferred evaluator
+            for mode in ("item", "attr"):
+                cases.append({"kind": "assign", "stmts": ["t1__ = a*2", "t2__ = t1__ + b"], "mode": mode,
+                              "vals": {"a": 2.0, "b": 3.0, "c.d": 4.0, "k1": 0.5, "x_2": -1.5, "zero": 0.0},
+                              "then": [["a", 5.0], ["b", -1.0], ["a", 0.5]]})
+                cases.append({"kind": "assign", "stmts": ["t1__ = el->l*k1", "t2__ = -t1__", "t3__ = t2__*t1__ + a"], "mode": mode,
+                              "vals": {"a": 2.0, "b": 3.0, "c.d": 4.0, "k1": 0.5, "x_2": -1.5, "zero": 0.0},
+                              "then": [["k1", 2.0], ["a", 1.0]]})
         for i in range(a.n):
+            if i % 8 == 7:
+                vals = {v: rng.choice([0.0, 1.0, 2.0, -1.5, 0.25, 3.0]) for v in VARS}
+                n_st = rng.randint(1, 3)
+                stmts = []
+                for k in range(n_st):
+                    body = safe_expr(rng, rng.randint(1, 2))
+                    if k > 0:
+                        body = "t%d__ %s (%s)" % (rng.randint(1, k), rng.choice(["+", "*", "-"]), body)
+                    stmts.append("t%d__ = %s" % (k + 1, body))
+                cases.append({"kind": "assign", "stmts": stmts, "vals": vals, "mode": rng.choice(["item", "attr"]),
+                              "then": [[rng.choice(VARS[:5]), rng.choice([0.0, 1.0, 2.5, -3.0])] for _ in range(rng.randint(1, 3))]})
+                continue
             vals = {v: rng.choice([0.0, 1.0, 2.0, -1.5, 0.25, 3.0]) for v in VARS}
             vals["zero"] = 0.0
             c = {"text": gen_sum(rng, rng.randint(1, a.depth)), "vals": vals, "mode": rng.choice(["item", "item", "attr"])}
@@ -336,7 +433,11 @@ def main():
             failures.append({"property": prop, "kind": kind, "hist": i, "op_index": 0, "detail": detail, "known": known})
         stats["ops"] += 1
         stats["histories"] += 1
-        run_case(case, fail, stats)
+        if case.get("kind") == "assign":
+            run_assign_case(case, fail, stats)
+            case.setdefault("text", "; ".join(case["stmts"]))
+        else:
+            run_case(case, fail, stats)
         line = {k: v for k, v in case.items() if not k.startswith("_")}
         line["op"] = "case"
         line["hist"] = i
